@@ -7,7 +7,9 @@
 #define NX 0
 #define NG 0
 #define NEL 1
+#ifndef VMAXB
 #define VMAXB 6
+#endif
 #ifndef NDATA
 #define NDATA 4
 #endif
@@ -25,7 +27,7 @@ uint8_t cx_msg[MAXMSG]; uint32_t cx_len, cx_sum;
 static uint8_t NSEL;
 static void tok_const(const char *tag, int tl, uint32_t num, const char *val, int vl)
 {
-  uint8_t t[5] = { 0 }, v[7] = { 0 };
+  uint8_t t[5] = { 0 }, v[TKV] = { 0 };
   for (int j = 0; j < tl; j++) t[j] = (uint8_t)tag[j];
   for (int j = 0; j < vl; j++) v[j] = (uint8_t)val[j];
   TK_add(1, num, t, (uint8_t)tl, v, (uint8_t)vl, (uint32_t)(tl + vl + 2));
@@ -33,10 +35,10 @@ static void tok_const(const char *tag, int tl, uint32_t num, const char *val, in
 static int k_len, k_data;
 static void pair(const char *ltag, uint32_t lnum, const char *dtag, uint32_t dnum)
 {
-  uint8_t t[5] = { 0 }, v[7] = { 0 };
+  uint8_t t[5] = { 0 }, v[TKV] = { 0 };
   t[0] = (uint8_t)ltag[0]; t[1] = (uint8_t)ltag[1]; v[0] = (uint8_t)('0' + NSEL);
   k_len = TK_n; TK_add(1, lnum, t, 2, v, 1, 5);
-  uint8_t t2[5] = { 0 }, v2[7] = { 0 };
+  uint8_t t2[5] = { 0 }, v2[TKV] = { 0 };
   t2[0] = (uint8_t)dtag[0]; t2[1] = (uint8_t)dtag[1];
   for (int j = 0; j < NDATA; j++) if (j < NSEL) v2[j] = cx_data[j];
   k_data = TK_n; TK_add(1, dnum, t2, 2, v2, NSEL, (uint32_t)(2 + 1 + NSEL + 1)); TK_isdata[k_data] = 1;
@@ -64,7 +66,7 @@ static int run(void)
 #endif
   uint8_t c0 = nondet_u8(), c1 = nondet_u8(), c2 = nondet_u8(); VF_ASSUME(c0 >= '0' && c0 <= '9' && c1 >= '0' && c1 <= '9' && c2 >= '0' && c2 <= '9');
   cx_cs[0] = c0; cx_cs[1] = c1; cx_cs[2] = c2;
-  { uint8_t t[5] = { '1', '0', 0, 0, 0 }, v[7] = { c0, c1, c2, 0 }; TK_add(1, 10, t, 2, v, 3, 7); }
+  { uint8_t t[5] = { '1', '0', 0, 0, 0 }, v[TKV] = { c0, c1, c2, 0 }; TK_add(1, 10, t, 2, v, 3, 7); }
   TK_render();
   W_set_input(TK_len); cx_len = TK_len;
   for (int i = 0; i < MAXMSG; i++) cx_msg[i] = W_buf[i];
@@ -73,6 +75,11 @@ static int run(void)
   int thrown = __vf_exc_pending; int kind = thrown ? W_exc_kind() : -1; __vf_exc_pending = 0;
   cx_accept = !thrown; cx_exc = (uint8_t)kind;
   VF_ASSERT(!W_rec_overflow && !TK_bad, "C06: the decoder never tokenizes inside a data value (tokenizer cut consistent)");
+#ifdef EXPECT_REJECT      /* boundary harness (C03): a data length that does not fit the decoder's value buffer must be refused, with no memory error */
+  VF_ASSERT(thrown, "C03: a data field whose length does not fit the decoder's value buffer is refused");
+  VF_REACH();
+  return 0;
+#endif
   VF_ASSERT(!thrown, "C06: a message with a well-formed Length/data pair is accepted");
   if (!thrown) {
     /* expected log: 49 56 34 52 [90 91] 98 108 [95 96] 141 [93 89] */
@@ -98,7 +105,11 @@ static int run(void)
 int main(void)
 {
   W_setup();
+#ifdef CONCRETE_DATA       /* boundary harness: the length is the subject, the bytes are fixed letters */
+  for (int j = 0; j < NDATA; j++) cx_data[j] = (uint8_t)('a' + j);
+#else
   for (int j = 0; j < NDATA; j++) cx_data[j] = nondet_u8();
+#endif
 #ifdef NFIX
   cx_n = NFIX; NSEL = NFIX; return run();                /* one query per data length */
 #else
